@@ -84,5 +84,14 @@ def evaluate(rep, prop, progs, results, oracle, known, stuck_is_violation=True):
             okc += 1
     rep.cov["traces_validated_against_impl"] = okc
     rep.cov["programs"] = len(progs)
+    # regions the models treat as one atomic step because they run under the primitive's spinlock: the PHOTON_VERIF build reports
+    # whether that spinlock is held when such a region is entered. On one vCPU a missing lock changes no behaviour, so this is a
+    # broken modelling assumption (reported after the multi-vCPU part had its chance to show a failing run), not a failing input.
+    for p, res in zip(progs, results):
+        g = [l for l in res.trace if l.startswith("guard-violation")]
+        if g:
+            rep.pending_guard = dict(broken="model assumption of %s: a region treated as atomic under the primitive's spinlock was entered without it (%s)" % (prop, g[0]),
+                                     program=p, note="single-vCPU runs cannot show a failure; see the multi-vCPU part")
+            break
     for kid, (k, p, v) in seen_known.items():
         rep.known_finding("%s (e.g. program `%s`: %s)" % (k["description"], " | ".join(x for x in p if x.startswith("thread"))[:160], v[:120]))
